@@ -280,7 +280,13 @@ def cond_tests(c, pol):
             return [] if r is False else [("not", tuple(r))]
         if c[0] == "arm":
             r = pat_tests(c[1], parse_pat(c[2]))
-            return r if pol else ([("not", tuple(r))] if r else [])
+            if pol:
+                return r
+            if r is False:
+                return []          # the arm cannot match: that it did not says nothing
+            if r == []:
+                return False       # the arm always matches: "it did not" never holds
+            return [("not", tuple(r))]
         if c[0] == "bin" and c[1] in ("Eq", "Ne"):
             a, b = c[2], c[3]
             if isinstance(a, tuple) and a[:1] == ("lit",) and not (isinstance(b, tuple) and b[:1] == ("lit",)):
@@ -315,6 +321,20 @@ def cond_tests(c, pol):
 
 
 # ------------------------------------------------------------------ leaves
+SELF_CONTAINED = False    # when set, the facts of a match arm also say that the arms written before it did not match (each leaf stands alone)
+
+
+class self_contained:
+    def __enter__(self):
+        global SELF_CONTAINED
+        self.old = SELF_CONTAINED
+        SELF_CONTAINED = True
+
+    def __exit__(self, *a):
+        global SELF_CONTAINED
+        SELF_CONTAINED = self.old
+
+
 def leaves(t, tests=(), limit=4096):
     """[(tests, value)] for the boolean / flag valued term t"""
     out = []
@@ -369,6 +389,8 @@ def _leaves(t, tests, out, limit):
                 _leaves(v, tests + earlier + r, out, limit)
                 if not r:
                     return
+                if SELF_CONTAINED:
+                    earlier = earlier + [negate(r)]     # a later arm is reached only when this pattern failed
             return
         if key[0] == "if":
             c = key[1]
@@ -721,6 +743,9 @@ def canon_first(v):
         for c, pol in flt:
             tests += cond_tests(c, pol) or []
         return finish(nest2, tests, A, B, mapping)
+    if isinstance(v, tuple) and v[:2] == ("call", "Iterator::any") and len(v[2]) == 2:
+        # `it.any(f)` is `match it.find(f) { Some(_) => true, None => false }`
+        v = ("match", ("call", "Iterator::find", v[2]), (("Option::Some(_)", ("lit", True)), ("Option::None", ("lit", False))))
     if isinstance(v, tuple) and v[:1] == ("match",) and len(v) == 3 and isinstance(v[1], tuple) and v[1][:2] == ("call", "Iterator::find") and len(v[1][2]) == 2:
         it, f = v[1][2]
         arms = {parse_pat(a[0])[1] if parse_pat(a[0])[0] == "ctor" else a[0]: a[-1] for a in v[2] if len(a) == 2}
@@ -753,3 +778,106 @@ def lift_proj(t):
         if c[0] == "if" and len(c) == 4:
             return ("if", c[1], keep(c[2]), keep(c[3]))
     return t
+
+
+# ------------------------------------------------------------------ decision tables
+def _bool_atoms(x, out):
+    """the atomic conditions of boolean term x (its and / or / not structure opened up)"""
+    x = norm(strip_acc(x))
+    if isinstance(x, tuple) and x:
+        if x[0] == "bin" and x[1] in ("And", "BitAnd", "Or", "BitOr") and len(x) == 4:
+            _bool_atoms(x[2], out)
+            _bool_atoms(x[3], out)
+            return
+        if x[0] == "op" and x[1] == "Not" and len(x) == 3:
+            _bool_atoms(x[2], out)
+            return
+        if x[0] == "lit" and isinstance(x[1], bool):
+            return
+    if ("b", x) not in out:
+        out.append(("b", x))
+
+
+def _bool_value(x, asg):
+    x = norm(strip_acc(x))
+    if isinstance(x, tuple) and x:
+        if x[0] == "bin" and x[1] in ("And", "BitAnd") and len(x) == 4:
+            return _bool_value(x[2], asg) and _bool_value(x[3], asg)
+        if x[0] == "bin" and x[1] in ("Or", "BitOr") and len(x) == 4:
+            return _bool_value(x[2], asg) or _bool_value(x[3], asg)
+        if x[0] == "op" and x[1] == "Not" and len(x) == 3:
+            return not _bool_value(x[2], asg)
+        if x[0] == "lit" and isinstance(x[1], bool):
+            return x[1]
+    return asg[("b", x)]
+
+
+def test_atoms(t, out):
+    """the atoms a fact of a decision tree speaks about"""
+    k = t[0]
+    if k == "cond":
+        _bool_atoms(t[1], out)
+    elif k == "survived":
+        test_atoms(t[1], out)
+    elif k == "not":
+        for u in t[1]:
+            test_atoms(u, out)
+    elif k == "or":
+        for alt in t[1]:
+            for u in alt:
+                test_atoms(u, out)
+    else:
+        a = ("t", t)
+        if a not in out:
+            out.append(a)
+
+
+def test_holds(t, asg):
+    k = t[0]
+    if k == "cond":
+        return _bool_value(t[1], asg) == t[2]
+    if k == "survived":
+        return test_holds(t[1], asg)
+    if k == "not":
+        return not all(test_holds(u, asg) for u in t[1])
+    if k == "or":
+        return any(all(test_holds(u, asg) for u in alt) for alt in t[1])
+    return asg[("t", t)]
+
+
+def decision_table(lv, atoms, value=lambda v: v):
+    """the function a list of leaves [(tests, value)] computes, tabulated over every consistent truth assignment of `atoms`:
+    {assignment (tuple of bools, in the order of atoms): frozenset of the values of the leaves whose facts hold}"""
+    import itertools
+    if len(atoms) > 14:
+        raise OverflowError("too many atomic conditions: %d" % len(atoms))
+    table = {}
+    for bits in itertools.product((False, True), repeat=len(atoms)):
+        asg = dict(zip(atoms, bits))
+        # one value is one variant: `s is V` and `s is W` cannot both hold
+        ok = True
+        for a, b in asg.items():
+            if b and a[0] == "t" and a[1][0] == "is":
+                for a2, b2 in asg.items():
+                    if b2 and a2 is not a and a2[0] == "t" and a2[1][0] == "is" and a2[1][1] == a[1][1] and a2[1][2] != a[1][2] \
+                            and a2[1][2].split("::")[0] == a[1][2].split("::")[0]:
+                        ok = False
+        if not ok:
+            continue
+        table[bits] = frozenset(value(v) for ts, v in lv if all(test_holds(t, asg) for t in ts))
+    return table
+
+
+def same_decision(lv1, lv2, value=lambda v: v):
+    """do two lists of leaves compute the same function of their conditions?  (True, None) or (False, a distinguishing assignment)"""
+    atoms = []
+    for lv in (lv1, lv2):
+        for ts, _ in lv:
+            for t in ts:
+                test_atoms(t, atoms)
+    atoms.sort(key=repr)
+    t1, t2 = decision_table(lv1, atoms, value), decision_table(lv2, atoms, value)
+    for bits in t1:
+        if t1[bits] != t2[bits]:
+            return False, {"when": [(a[1], b) for a, b in zip(atoms, bits)], "first": sorted(map(repr, t1[bits]))[:3], "second": sorted(map(repr, t2[bits]))[:3]}
+    return True, None
